@@ -68,15 +68,34 @@ def _write_allowed():
 
 
 class _FileProxy(object):
-    """file object whose write() calls are primitive writes"""
+    """file object opened for writing by a storage module.  What write() is given stays in the process (as in Python's
+    own buffered files) until flush() / close(): handing it to the operating system then is ONE primitive write.  A
+    process killed before that leaves nothing of it in the file - whatever was renamed in between."""
 
     def __init__(self, f):
         self._f = f
+        self._buf = []
 
     def write(self, data):
-        if _write_allowed():
-            return self._f.write(data)
+        self._buf.append(bytes(data))
         return len(data)
+
+    def _hand_over(self):
+        if self._buf:
+            data, self._buf = b''.join(self._buf), []
+            if _write_allowed():
+                self._f.write(data)
+
+    def flush(self):
+        self._hand_over()
+        return self._f.flush()
+
+    def close(self):
+        self._hand_over()
+        return self._f.close()
+
+    def tell(self):
+        return self._f.tell() + sum(len(b) for b in self._buf)
 
     def __getattr__(self, name):
         return getattr(self._f, name)
@@ -85,6 +104,7 @@ class _FileProxy(object):
         return self
 
     def __exit__(self, *a):
+        self._hand_over()
         return self._f.__exit__(*a)
 
 
